@@ -100,9 +100,20 @@ func byteFill(n int, seed byte) []byte {
 	return b
 }
 
+// c14Siblings: the other numeric limits of the struct whose fields are being enumerated. A limit
+// too large to reach is still probed at its siblings' values (a decoder that checks a field
+// against its neighbour's limit is exactly wrong there).
+var c14Siblings []int
+
 func lenMenu(max int) []int {
 	if max > c14BigLimit {
-		return []int{0, 1, 33, 1000}
+		out := []int{0, 1, 33, 1000}
+		for _, l := range c14Siblings {
+			if l > 1000 && l < max && l <= 1<<20 {
+				out = append(out, l, l+1)
+			}
+		}
+		return out
 	}
 	m := map[int]bool{0: true, 1: true, max - 1: true, max: true, max + 1: true}
 	var out []int
@@ -263,9 +274,19 @@ func sszStructCodec(name string, proto any) *codecT {
 	c.Limits = func(v any) string { return structLimits(reflect.ValueOf(v).Elem()) }
 	c.Vals = func() []codecVal {
 		var per [][]fieldChoice
+		c14Siblings = nil
+		for i := 0; i < rt.NumField(); i++ {
+			d := parseTag(rt.Field(i))
+			for _, m := range append(append([]string{}, d.max...), d.size...) {
+				if n, err := strconv.Atoi(m); err == nil {
+					c14Siblings = append(c14Siblings, n)
+				}
+			}
+		}
 		for i := 0; i < rt.NumField(); i++ {
 			per = append(per, fieldChoices(rt.Field(i)))
 		}
+		c14Siblings = nil
 		var out []codecVal
 		idx := make([]int, len(per))
 		for {
@@ -405,12 +426,24 @@ func structLimits(v reflect.Value) string {
 
 // ---------- the generic checks ----------
 
+// c14Held: the encoding handed out for the previous value of each codec, and a private copy of
+// it. An encoding belongs to its caller: encoding another value afterwards must not change it
+// (an encoder that returns a slice of a reused buffer passes every immediate round trip).
+var c14Held = map[string][2][]byte{}
+
 func c14Value(r *mc.Report, c *codecT, cv codecVal) (enc []byte) {
 	cs := c14Case{Codec: c.Name, Kind: "value", Desc: cv.Desc}
 	var err error
 	if msg, site := panicsTo(func() { enc, err = c.Enc(cv.V) }); msg != "" {
 		r.Violation("encode-no-panic", c.Name+":"+site, msg+" on "+cv.Desc, cs)
 		return nil
+	}
+	if h, ok := c14Held[c.Name]; ok && !bytes.Equal(h[0], h[1]) {
+		r.Violation("value-roundtrip", c.Name+":encoding-changed-by-a-later-encode", fmt.Sprintf("the %d bytes returned for the previous value changed when %s was encoded", len(h[1]), cv.Desc), cs)
+		delete(c14Held, c.Name)
+	}
+	if err == nil {
+		c14Held[c.Name] = [2][]byte{enc, append([]byte{}, enc...)}
 	}
 	if err != nil {
 		if cv.InLimit {
